@@ -140,6 +140,43 @@ def leU64 (l : List (BitVec 8)) : Option (BitVec 64) :=
   if l.length < 8 then none
   else some ((List.range 8).foldl (fun acc i => acc ||| ((l.getD i 0).setWidth 64 <<< (8 * i))) 0#64)
 
+/-! ### maps with `int` keys
+
+A Go `map[int]V` is a list of (key, value) pairs kept sorted by strictly increasing key (so that two maps with
+the same entries are the same value).  Go leaves the iteration order of `range` unspecified: every translated
+function that ranges over a map takes an oracle `ord : MapOrder` that picks the order; theorems about such
+functions quantify over every lawful oracle (`MapOrder.Lawful`: the order is a permutation of the keys).
+The loop iterates over a snapshot of the entries taken when it starts; the translator rejects loops that touch
+the ranged map at another key than the current one. -/
+
+abbrev GoMap (V : Type) := List (Int × V)
+
+/-- `m[k]` (the zero value `z` for a missing key) -/
+def mget {V} (m : GoMap V) (k : Int) (z : V) : V := ((m.find? (fun p => p.1 == k)).map Prod.snd).getD z
+/-- `m[k] = v` -/
+def mset {V} : GoMap V → Int → V → GoMap V
+  | [], k, v => [(k, v)]
+  | (k', v') :: rest, k, v =>
+    if k < k' then (k, v) :: (k', v') :: rest
+    else if k = k' then (k, v) :: rest
+    else (k', v') :: mset rest k v
+/-- `delete(m, k)` -/
+def mdelete {V} (m : GoMap V) (k : Int) : GoMap V := m.filter (fun p => p.1 != k)
+
+/-- the iteration order of `range` over a map: any permutation of its keys -/
+structure MapOrder where
+  perm : List Int → List Int
+def MapOrder.Lawful (o : MapOrder) : Prop := ∀ l : List Int, (o.perm l).Perm l
+/-- ascending keys: one lawful order -/
+def MapOrder.ascending : MapOrder := ⟨id⟩
+/-- `for k, v := range m`: the entries in the order the oracle picks -/
+def mrange {V} (o : MapOrder) (m : GoMap V) : List (Int × V) :=
+  (o.perm (m.map Prod.fst)).filterMap (fun k => (m.find? (fun p => p.1 == k)).map (fun p => (k, p.2)))
+
+/-- `sort.Slice(xs, func(i, j) bool { return xs[i].f < xs[j].f })` for an `int` field `f`: ascending in `f`
+    (a stable merge sort; `sort.Slice` leaves the order of elements with equal keys unspecified) -/
+def sortOn {α} (f : α → Int) (xs : List α) : List α := xs.mergeSort (fun a b => decide (f a ≤ f b))
+
 /-! ### math/bits -/
 
 def rotateLeft64 (x : BitVec 64) (k : Int) : BitVec 64 := x.rotateLeft (k % 64).toNat
